@@ -215,7 +215,7 @@ func (t *textReader) nextBeforeTypeAnnotations() (bool, error) {
 	tok := t.tok.Token()
 	switch tok {
 	case tokenEOF:
-		if t.ctx.peek() == ctxAtTopLevel {
+		if t.ctx.peek() == ctxAtTopLevel && len(t.annotations) == 0 {
 			t.eof = true
 			return true, nil
 		}
@@ -341,7 +341,7 @@ func (t *textReader) nextBeforeTypeAnnotations() (bool, error) {
 
 	case tokenCloseBracket:
 		// No more values in this list.
-		if t.ctx.peek() == ctxInList {
+		if t.ctx.peek() == ctxInList && len(t.annotations) == 0 {
 			t.eof = true
 			return true, nil
 		}
@@ -349,7 +349,7 @@ func (t *textReader) nextBeforeTypeAnnotations() (bool, error) {
 
 	case tokenCloseParen:
 		// No more values in this sexp.
-		if t.ctx.peek() == ctxInSexp {
+		if t.ctx.peek() == ctxInSexp && len(t.annotations) == 0 {
 			t.eof = true
 			return true, nil
 		}
